@@ -57,7 +57,9 @@ def check_case(seg, rect, as_tuples=False):
     """seg, rect given in the numeric types handed to the library. Returns [(clause, msg)].
     as_tuples: hand segment, rectangle and points over as tuples - ((x, y), (x, y)) - instead of
     lists (both are read-only inputs as far as the statement goes)."""
-    desc = f"clip_segment({seg!r}, {rect!r})" + (" [points as tuples]" if as_tuples else "")
+    desc = f"clip_segment({seg!r}, {rect!r})" + \
+        (" [first point of the segment and second corner of the rectangle as tuples, the other "
+         "two as lists]" if as_tuples == "mixed" else " [points as tuples]" if as_tuples else "")
     conv = tuple if as_tuples else list
     fseg = tuple((frac(p[0]), frac(p[1])) for p in seg)
     frect = tuple((frac(p[0]), frac(p[1])) for p in rect)
@@ -67,8 +69,12 @@ def check_case(seg, rect, as_tuples=False):
     tol2 = (REL_TOL * scale) ** 2
     core.rejected(_lib().clip_segment, [[0, 0]], [[0, 0], [1, 1]])          # one endpoint only
     try:
-        (accept, result), calls = clip_counted(conv([conv(seg[0]), conv(seg[1])]),
-                                               conv([conv(rect[0]), conv(rect[1])]))
+        if as_tuples == "mixed":
+            (accept, result), calls = clip_counted([tuple(seg[0]), list(seg[1])],
+                                                   [list(rect[0]), tuple(rect[1])])
+        else:
+            (accept, result), calls = clip_counted(conv([conv(seg[0]), conv(seg[1])]),
+                                                   conv([conv(rect[0]), conv(rect[1])]))
     except LoopBudget:
         return [("loop", f"{desc} evaluated the region code more than 200 times (no convergence)")]
     except core.CaseTimeout:
@@ -266,7 +272,8 @@ def _chunk(args):
             bad = check_case(seg, rect)
             if name == "int":
                 bad += check_case(seg, rect, as_tuples=True)
-                part.count("cases")
+                bad += check_case(seg, rect, as_tuples="mixed")
+                part.count("cases", 2)
             part.count("cases")
             fseg = tuple((frac(p[0]), frac(p[1])) for p in seg)
             frect = tuple((frac(p[0]), frac(p[1])) for p in rect)
@@ -279,7 +286,8 @@ def _chunk(args):
                 part.violation(f"{clause}:{name}:{seg!r}:{rect!r}", msg,
                                {"kind": "clip", "seg": [list(seg[0]), list(seg[1])],
                                 "rect": [list(rect[0]), list(rect[1])],
-                                "as_tuples": "as tuples" in msg})
+                                "as_tuples": "mixed" if "the other two as lists" in msg
+                                else "as tuples" in msg})
     part.sample({"lattice": name, "segment": [list(p) for p in segs[len(segs) // 3]],
                  "rectangle": [list(p) for p in rects[0]]}, limit=1)
     return part
